@@ -93,6 +93,16 @@ struct Scenario {
     /// the linearization order is then the log order
     #[serde(default)]
     serialize: bool,
+    /// every stream flush takes this long (widens the windows around the periodic flush)
+    #[serde(default)]
+    flush_slow_us: u64,
+    /// overflow race rounds (C09): the writer is stalled, the queue is filled to exactly its
+    /// capacity, then the writer is released while ONE more entry is appended; repeated
+    #[serde(default)]
+    race_rounds: u64,
+    /// log only AppEnd (not AppStart) - for the counting spec on large concurrent runs
+    #[serde(default)]
+    count_only: bool,
 }
 
 #[derive(Clone)]
@@ -186,8 +196,12 @@ fn timed_append_ser(q: &Q, p: i64, e: u64, serialize: bool) {
     }
 }
 
+static COUNT_ONLY: AtomicBool = AtomicBool::new(false);
+
 fn timed_append(q: &Q, p: i64, e: u64) {
-    trace::evi("AppStart", &[("p", p), ("e", e as i64)]);
+    if !COUNT_ONLY.load(Ordering::Relaxed) {
+        trace::evi("AppStart", &[("p", p), ("e", e as i64)]);
+    }
     let t = Instant::now();
     let r = util::catch(|| q.append(NumEntry(e)));
     if r.is_err() {
@@ -212,6 +226,83 @@ fn overflow_count(rec: &metrics_util_020::debugging::Snapshotter) -> i64 {
     n
 }
 
+/// Drop the join handle in a helper thread: a drop that does not return within the budget is
+/// logged as `DropTimeout` (an event no action of the specification consumes); the stream's
+/// scripted faults are then switched off so that the process can go on.
+fn watched_drop(handle: metrique_writer::sink::BackgroundQueueJoinHandle, ctl: &StreamCtl) {
+    let done = Arc::new((Mutex::new(false), Condvar::new()));
+    let d2 = done.clone();
+    let t = std::thread::spawn(move || {
+        trace::evi("DropStart", &[]);
+        drop(handle);
+        trace::evi("DropEnd", &[]);
+        *d2.0.lock().unwrap() = true;
+        d2.1.notify_all();
+    });
+    let g = done.0.lock().unwrap();
+    let (g, _) = done.1.wait_timeout_while(g, BUDGET, |d| !*d).unwrap();
+    let finished = *g;
+    drop(g);
+    if !finished {
+        trace::evi("DropTimeout", &[]);
+        ctl.flush_errors(false);
+        ctl.open_all();
+        let g = done.0.lock().unwrap();
+        let _ = done.1.wait_timeout_while(g, BUDGET, |d| !*d).unwrap();
+        trace::set_epoch(u64::MAX); // whatever that thread still logs is not part of the scenario
+    } else {
+        let _ = t.join();
+    }
+}
+
+/// C09 race rounds, single producer (the linearization is then unambiguous up to the one race).
+fn run_race_rounds(sc: &Scenario, q: &Q, ctl: &StreamCtl) {
+    let cap = sc.cap as u64;
+    let mut next_id = 10000u64;
+    let mut handed = 0u64; // entries whose `next` has been entered so far
+    for _ in 0..sc.race_rounds {
+        // 1. one entry that the writer takes and stalls on
+        next_id += 1;
+        let stall_id = next_id;
+        ctl.gate(stall_id);
+        timed_append(q, 1, stall_id);
+        handed += 1;
+        if !ctl.wait_nexts(handed, BUDGET) {
+            trace::evi("StallNotReached", &[("e", stall_id as i64)]);
+            ctl.open_all();
+            return;
+        }
+        // 2. fill the queue to exactly its capacity
+        for _ in 0..cap {
+            next_id += 1;
+            timed_append(q, 1, next_id);
+        }
+        // 3. release the writer and race one more append against its first pop
+        next_id += 1;
+        let racer = next_id;
+        ctl.open_gate(stall_id);
+        timed_append(q, 1, racer);
+        // 4. let the writer drain: cap or cap+1 more hand-offs, then idle
+        let t = Instant::now();
+        loop {
+            let n = ctl.nexts();
+            if n >= handed + cap {
+                std::thread::sleep(Duration::from_micros(300));
+                let n2 = ctl.nexts();
+                if n2 == n || n2 >= handed + cap + 1 {
+                    handed = n2;
+                    break;
+                }
+            }
+            if t.elapsed() > BUDGET {
+                handed = ctl.nexts();
+                break;
+            }
+            std::thread::yield_now();
+        }
+    }
+}
+
 fn run_scenario(sc: &Scenario) {
     let ctrl = sched::controller();
     let nprod = sc.producers.len();
@@ -225,7 +316,9 @@ fn run_scenario(sc: &Scenario) {
         ctl.report_result(Res::parse(r));
     }
     ctl.slow(sc.slow_us);
+    ctl.slow_flush(sc.flush_slow_us);
     ctl.flush_errors(sc.flush_err);
+    COUNT_ONLY.store(sc.count_only, Ordering::Relaxed);
     let stall_id = sc.stall.as_ref().map(|s| 10000 + s.k);
     if let Some(id) = stall_id {
         ctl.gate(id);
@@ -310,6 +403,9 @@ fn run_scenario(sc: &Scenario) {
         }));
     }
     start.wait();
+    if sc.race_rounds > 0 {
+        run_race_rounds(sc, &q, &ctl);
+    }
     if let Some(id) = stall_id {
         // wait until the writer is inside next(stall entry): k hand-offs have been entered
         let k = sc.stall.as_ref().unwrap().k;
@@ -341,9 +437,7 @@ fn run_scenario(sc: &Scenario) {
     let next_f = |fcount: &std::sync::atomic::AtomicI64| fcount.fetch_add(1, Ordering::SeqCst) + 1;
     match sc.end.as_str() {
         "drop" => {
-            trace::evi("DropStart", &[]);
-            drop(handle);
-            trace::evi("DropEnd", &[]);
+            watched_drop(handle, &ctl);
             for i in 1..=sc.late_appends {
                 timed_append(&q, 9, 90000 + i);
             }
@@ -381,9 +475,7 @@ fn run_scenario(sc: &Scenario) {
                 trace::evi("Overflows", &[("n", overflow_count(snap))]);
             }
             trace::evi("Quiesce", &[]);
-            trace::evi("DropStart", &[]);
-            drop(handle);
-            trace::evi("DropEnd", &[]);
+            watched_drop(handle, &ctl);
             drop(q);
             trace::evi("SinkDrop", &[("p", 0)]);
         }
